@@ -377,6 +377,9 @@ class Schema(dict, metaclass=LogicalMeta):
                 # ignore addition
                 return
             # store the parsed addition (converted by the addition type), not the raw input
+            if alias in self.__dict__:
+                # a key kept at construction is readable as an attribute too: keep the two in step
+                self.__dict__[alias] = addition
             return super().__setitem__(alias, addition)
 
         return self.__field_setter__(value, field=field)
@@ -418,7 +421,10 @@ class Schema(dict, metaclass=LogicalMeta):
             )
         field = self.__parser__.get_field(key)
         if not field:
-            return super().__delitem__(key)
+            super().__delitem__(key)
+            if isinstance(key, str) and not key.startswith("__"):
+                self.__dict__.pop(key, None)      # the attribute of an additional key goes with the key
+            return
         return self.__field_deleter__(field)
 
     def pop(self, key: str, default=unprovided):
@@ -429,7 +435,10 @@ class Schema(dict, metaclass=LogicalMeta):
             )
         field = self.__parser__.get_field(key)
         if not field:
-            return super().pop(key)
+            result = super().pop(key)
+            if isinstance(key, str) and not key.startswith("__"):
+                self.__dict__.pop(key, None)      # the attribute of an additional key goes with the key
+            return result
         if field.immutable:
             raise exc.DeleteError(
                 f"{self.__name__}: Attempt to pop immutable item: [{repr(key)}]"
@@ -522,6 +531,9 @@ class Schema(dict, metaclass=LogicalMeta):
                 raise exc.DeleteError(
                     f"{self.__name__}: Attempt to delete required schema key: {repr(key)}"
                 )
+        for key in list(self):
+            if isinstance(key, str) and not key.startswith("__"):
+                self.__dict__.pop(key, None)      # additional keys
         super().clear()
         for field in self.__parser__.fields.values():
             # the attributes go with the keys (no_output fields live in the instance __dict__ only)
